@@ -341,13 +341,13 @@ def cases(tier: str, base_seed: int):  # noqa: ANN201
         yield _directed(v, base_seed + v, tier)
     for i in itertools.count():
         seed = base_seed + 100 + i
-        r = i % 8
-        if r < 5:
-            yield _storage_case(seed, tier)
-        elif r < 7:
+        r = i % 16
+        if r in (3, 7, 11, 12, 13, 14):
             yield _net_case(seed, tier, "short")
+        elif r == 15:
+            yield _net_case(seed, tier, "long")       # ~10 s of wall time each: one in sixteen
         else:
-            yield _net_case(seed, tier, "long")
+            yield _storage_case(seed, tier)
 
 
 # ================================================================================================ harness' own codec
@@ -483,6 +483,8 @@ class Harness:
                 old = last.get(k)
                 if old is None:
                     if len(data) > self.limits[0]:
+                        if ctx != "store_request" and name in self.recording:
+                            ctx = "find"       # the node's own lookup is still running: its result cache is the writer
                         key = {"store_request": "oversized_value_stored",
                                "find": "oversized_value_stored:find_result_cached_locally"}.get(
                                    ctx, "oversized_value_stored:other_path")
